@@ -805,3 +805,22 @@ def block_case(rng):
     layered = '{' + base + '}.{' + ','.join(defs1) + '}.' + last
     return {'layered': layered, 'flat': '{' + flat + '}.' + last, 'coarse_last': False, 'levels': 2, 'mol': None,
             'nparts': sum(counts), 'squash': False, 'reuse_names': False, 'block': True}
+
+
+def directional_case(rng):
+    """C06 input of the head-to-tail kind: a chain of blocks, every block and every bead written `[>] ... [<]`
+    WITHOUT labels.  Every edge then has two compatible descriptor pairs (A.> with B.< and A.< with B.>); the
+    resolver takes the first in node order, which differs between the layered and the flat description, so
+    these inputs are the class `ambiguous_descriptor_choice` of C06 (the flat string is the beads in block
+    order)."""
+    beads = {'P': '[>]CO[<]', 'Q': '[>]CN[<]', 'R': '[>]CS[<]', 'T': '[>]CCO[<]'}
+    nb = rng.randint(2, 4)
+    types = [rng.choice('ABC') for _ in range(nb)]
+    defs = {t: [rng.choice('PQRT') for _ in range(rng.randint(1, 3))] for t in sorted(set(types))}
+    base = '{' + ''.join('[#%s]' % t for t in types) + '}'
+    lvl = '{' + ','.join('#%s=[>]%s[<]' % (t, ''.join('[#%s]' % b for b in defs[t])) for t in sorted(defs)) + '}'
+    used = sorted({b for t in defs for b in defs[t]})
+    last = '{' + ','.join('#%s=%s' % (b, beads[b]) for b in used) + '}'
+    flat = '{' + ''.join('[#%s]' % b for t in types for b in defs[t]) + '}.' + last
+    return {'layered': base + '.' + lvl + '.' + last, 'flat': flat, 'coarse_last': False, 'levels': 2, 'mol': None,
+            'nparts': sum(len(defs[t]) for t in types), 'squash': False, 'reuse_names': False, 'directional': True}
